@@ -133,3 +133,54 @@ Proof.
   apply zlist_eqb_eq in Hn. subst nal.
   rewrite (h265_vps_spec _ _ _ E Hs). unfold pobs_eqb, vps_view. rewrite !Z.eqb_refl. reflexivity.
 Qed.
+
+(* ---------------------------------------------------------------- D29 / D30 witnesses *)
+Definition kv_env (l : list (Z * Z)) : env := fold_left (fun a kv => set a (fst kv) (snd kv)) l env0.
+
+(* two temporal sub-layers, ordering info for both, 25 fps: before the repair the decoder read
+   one triple instead of two and lost the rest of the SPS *)
+Definition rec_d29 : env :=
+  kv_env [(h_nal_type, 33); (h_tid, 1); (h_max_sub, 1); (h_nesting, 1); (h_chroma, 1);
+          (h_width, 64); (h_height, 64); (h_slo_present, 1); (h_max_dec 0, 1); (h_max_dec 1, 3);
+          (h_max_latency 1, 5);
+          (h_vui_present, 1); (v_timing_present, 1); (v_nut, 1); (v_ts, 25)].
+
+Theorem hevc_sublayer_refuted : exists b a,
+  emit std_h265_sps rec_d29 env0 = Some (b, a) /\
+  go_h265_obs (nal_of_bits b) = Some (64, 64, fps_bits (25, 1), true) /\
+  go_h265_decode_with go_h265_sps_d29 (nal_of_bits b) <> go_h265_obs (nal_of_bits b).
+Proof.
+  destruct (emit std_h265_sps rec_d29 env0) as [[b a]|] eqn:E; [|vm_compute in E; discriminate].
+  exists b, a. split; auto.
+  assert (H : option_map (fun p : bits * env =>
+              (vobs_eqb (go_h265_obs (nal_of_bits (fst p))) (Some (64, 64, fps_bits (25, 1), true)),
+               vobs_eqb (go_h265_decode_with go_h265_sps_d29 (nal_of_bits (fst p)))
+                        (go_h265_obs (nal_of_bits (fst p)))))
+            (emit std_h265_sps rec_d29 env0) = Some (true, false)) by (vm_compute; reflexivity).
+  rewrite E in H. cbn [option_map fst snd] in H. inversion H as [[H1 H2]].
+  split.
+  - apply vobs_eqb_eq in H1. rewrite H1. reflexivity.
+  - intros C. rewrite C, vobs_eqb_refl in H2. discriminate.
+Qed.
+
+(* two reference picture sets, the second predicted from the first: valid per 7.3.7,
+   rejected by the decoder (known finding D30) *)
+Definition rec_d30 : env :=
+  kv_env [(h_nal_type, 33); (h_tid, 1); (h_nesting, 1); (h_chroma, 1);
+          (h_width, 64); (h_height, 64); (h_max_dec 0, 2);
+          (h_num_st_rps, 2); (h_rps_neg 0, 1); (h_rps_s0 0 0, 0); (h_rps_s0_used 0 0, 1);
+          (h_rps_inter 1, 1); (h_rps_used 1 0, 1); (h_rps_used 1 1, 1)].
+
+Theorem hevc_inter_rps_rejected : exists b a,
+  emit std_h265_sps_i rec_d30 env0 = Some (b, a) /\ h265_ranges a = true /\
+  uses_inter_rps a = true /\ go_h265_obs (nal_of_bits b) = None.
+Proof.
+  destruct (emit std_h265_sps_i rec_d30 env0) as [[b a]|] eqn:E; [|vm_compute in E; discriminate].
+  exists b, a. split; auto.
+  assert (H : option_map (fun p : bits * env =>
+              (h265_ranges (snd p), uses_inter_rps (snd p),
+               vobs_eqb (go_h265_obs (nal_of_bits (fst p))) None))
+            (emit std_h265_sps_i rec_d30 env0) = Some (true, true, true)) by (vm_compute; reflexivity).
+  rewrite E in H. cbn [option_map fst snd] in H. inversion H as [[H1 H2 H3]].
+  repeat split; auto. apply vobs_eqb_eq. exact H3.
+Qed.
